@@ -1358,6 +1358,31 @@ impl TransportManager {
                                         .get_mut(&transport)
                                         .expect("transport to exist")
                                         .reject(endpoint.connection_id());
+
+                                    // If the rejected connection is the outcome of a local dial,
+                                    // the dial has failed: clear the dial record so the peer can
+                                    // be dialed again and report the failure.
+                                    if let Endpoint::Dialer { address, connection_id } = endpoint {
+                                        let dial_concluded = self
+                                            .peers
+                                            .write()
+                                            .get_mut(&peer)
+                                            .is_some_and(|context| context.state.on_dial_failure(connection_id));
+
+                                        if dial_concluded {
+                                            self.report_dial_failure_to_protocols(peer, vec![address.clone()]).await;
+
+                                            return Some(TransportEvent::DialFailure {
+                                                connection_id,
+                                                address,
+                                                error: DialError::NegotiationError(
+                                                    crate::error::NegotiationError::IoError(
+                                                        std::io::ErrorKind::ConnectionAborted,
+                                                    ),
+                                                ),
+                                            });
+                                        }
+                                    }
                                 }
                             }
                         }
